@@ -1,14 +1,16 @@
 """C19 — resetting adaptation restores the initial adaptive state, every time.
 
-proof:   EpsieProps/C19.lean (C19_reset_restores[_spec|_with_loads], C19_reset_rejected_iff,
-         C19_window_restarts, C19_window_full, C19_window_same_as_fresh, C19_window_length,
+proof:   EpsieProps/C19.lean (C19_reset_restores[_spec|_with_loads], C19_reset_always_succeeds,
+         C19_window_restarts, C19_window_full, C19_window_step0_as_fresh, C19_window_same_as_fresh,
+         C19_window_length,
          C19_non_adaptive_untouched[_chain], C19_reset_after_swap_exact, ...) over
          EpsieModel/Alias.lean + Proposal/Chain/PTChain.
 tie:     tables re-measured on every run; the reset discipline re-decided about them by building
          EpsieProps/C19Table.lean here; C19_table_model_sound checks the model's prediction
          against the measured behaviour over three resets.
 search:  harness/alias.py on the REAL code: steps and resets interleaved on real chains (0-4 resets,
-         back to back, before any step), every distribution attribute against its construction-time
+         back to back, before any step / before the first proposal step of a proposal with a jump
+         interval: a reset never raises), every distribution attribute against its construction-time
          value, the following trajectory against a fresh proposal with the same clock, untouched
          non-adaptive proposals / chain data / random stream, and PT samplers with
          reset_after_swap=True under a recorder of which levels were reset.
@@ -55,18 +57,15 @@ def summarise(chk, units, results):
     chk.coverage['rule'] = ('a reset case is non-trivial when some distribution attribute differed from its '
                             'construction-time value just before a reset; a PT case when a sweep exchanged levels')
     chk.coverage['resets_checked'] = resets
-    chk.coverage['resets_rejected_at_nsteps_0'] = rejected
+    chk.coverage['resets_that_raised_at_nsteps_0'] = rejected
     chk.coverage['post_reset_trajectories_compared'] = traj
     chk.coverage['pt_sweeps'] = sweeps
     chk.coverage['pt_sweeps_with_exchange'] = exch
     chk.coverage['pt_level_resets_observed'] = ptresets
     chk.coverage['histogram'] = hist
     chk.coverage['unit_errors'] = len(errors)
-    if rejected:
-        chk.notes.append('a reset before the proposal completed its first proposal step (nsteps == 0) raises '
-                         'ValueError("start_step must be >= 1") and changes nothing: seen %d time(s); at chain '
-                         'iteration 0 this is recorded only, after at least one chain step (jump_interval > 1) it '
-                         'is reported' % rejected)
+    chk.coverage['resets_before_first_proposal_step'] = sum(info.get('at_nsteps0', 0) for _, info in results
+                                                            if 'error' not in info)
     if errors:
         chk.notes.append('search units that could not be evaluated (not violations): %d; first: %s' % (
             len(errors), errors[0]['error'][-300:]))
